@@ -506,7 +506,10 @@ def universeNumber (w : World) (i : Nat) (v : Val) : Res World :=
         if n ≤ 0 then .err .valueError w
         else if w.universes.contains n then .err .numberConflict w
         else .ok { w with universes := w.universes.set i n,
-                          cells := w.cells.map (fun c => if c.univ = old then { c with univ := n } else c) }
+                          -- cells point at the Universe *object*: every view of its number follows
+                          cells := w.cells.map (fun c =>
+                            let c1 := if c.univ = old then { c with univ := n } else c
+                            if c1.fillUniverse = some old then { c1 with fillUniverse := some n } else c1) }
     | _ => .err .typeError w
 
 /-- `Cells(list)` as used by `claim` and the `cells` setter: element types, numbers used twice -/
